@@ -304,7 +304,7 @@ fn base_documents(cfg: &Cfg, rep: &mut Report) -> Vec<Doc> {
     gc.flow_knots = (1, 2);
     gc.run_len = (1, 2);
     gc.externals = false;
-    for i in 0..cfg.pick(4, 10) {
+    for i in 0..cfg.pick(4, 40) {
         if let GenOutcome::Ok(c) = generated(cfg.seed, "C15", i, &gc) {
             stories.push(c);
         }
@@ -313,7 +313,7 @@ fn base_documents(cfg: &Cfg, rep: &mut Report) -> Vec<Doc> {
     let corpus = corpus_stories(&cfg.corpus_dir(), true, false, 400);
     let mut idx: Vec<usize> = (0..corpus.len()).collect();
     Rng::derive(cfg.seed, "C15-corpus", 0).shuffle(&mut idx);
-    for i in idx.into_iter().take(cfg.pick(10, 40)) {
+    for i in idx.into_iter().take(cfg.pick(10, 120)) {
         stories.push(corpus[i].clone());
     }
     // every other story gets non-ASCII / control / quote-heavy text injected into its strings, so that damaged
@@ -366,7 +366,7 @@ pub fn run(cfg: &Cfg) -> i32 {
         cfg,
         "fault_enumeration",
         "case = (base document, fault): base documents are compiled stories (generated + reference corpus) and saves taken at seeded points (single flow, several flows, after host assignments). Faults: EVERY single-node structural fault from {delete, retype to null/true/0/-1/2^63-1/2^31/-2^31-1/0.5/string/empty string/array/object, duplicate, swap with next sibling, wrap in array} for documents up to the node cap (sampled above it), truncation at EVERY byte for documents up to the byte cap, text-level faults (1e400, unknown tokens, raw control characters, BOM, trailing garbage), nesting bombs and random bytes. Each text is given to Story::new (story documents, under the loader this build selects) or load_state (saves). Monitored: no panic (caught, attributed to a repository source location), no process death (journal), Ok or Err; after a failed load_state, reset + replay must equal a fresh story. Non-trivial = the fault changed the document; distinct by (document, fault, node).",
-        cfg.pick(3000, 100_000),
+        cfg.pick(3000, 400_000),
     );
     rep.assumptions.push(format!("this run used the '{loader}' story loader; saves are always read by the serde-based reader"));
     let docs = base_documents(cfg, &mut rep);
